@@ -615,7 +615,25 @@ def sum_fieldless_eq(ex, st, func, args, dest_ty):
     e = ex.discr(st, a).t == ex.discr(st, b).t
     return [(st, BoolV(e if m.group(2) == 'eq' else z3.Not(e)))]
 
+def sum_map_err(ex, st, func, args, dest_ty):
+    """Result::map_err(f) with f an error conversion (`E2::from`): Ok(v) -> Ok(v); Err(e) -> Err(wrapped e)"""
+    if not re.search(r'as From<.*>>::from\}?>?$|::from\}>$', func):
+        return None
+    r = args[0]; d = ex.discr(st, r).t; out = []
+    for dv in (0, 1):
+        if not ex.feasible(st, d == dv): continue
+        s2 = st.clone(); s2.pc.append(d == dv)
+        oid = s2.new_obj(s2.fresh_name('maperr'), dest_ty or 'Result'); s2.heap[oid]['discr'] = BV(z3.BitVecVal(dv, 64), True)
+        if dv == 0:
+            s2.heap[oid][('f', 'Ok', 0)] = ex.load(s2, r.oid, ('f', 'Ok', 0), 'opaque') if ('f', 'Ok', 0) in s2.heap[r.oid] else UNIT
+        else:
+            w = s2.new_obj(s2.fresh_name('converted'), 'err'); s2.heap[w][('f', None, 0)] = ex.load(s2, r.oid, ('f', 'Err', 0), 'opaque')
+            s2.heap[oid][('f', 'Err', 0)] = ObjV(w)
+        out.append((s2, ObjV(oid)))
+    return out
+
 GENERIC = [
+    (r'Result::<.*>::map_err::<', sum_map_err),
     (r' as PartialEq>::(eq|ne)$', sum_fieldless_eq),
     (r' as Try>::branch$', sum_try_branch),
     (r' as FromResidual<.*>>::from_residual$', sum_from_residual),
